@@ -102,9 +102,11 @@ func vhC07StructN() int {
 // VH_C07_structure: which vertices a truncation moves, for every shape and every cut depth: the
 // moved set is exactly the ancestry of one live vertex, every moved vertex and transaction stays
 // readable and indexed, nothing else leaves the DAG, a failed truncation moves nothing.
-func VH_C07_structure() {
+func VH_C07_structure() { vhTruncStructure("C07/structure", vhC07StructN()) }
+
+// vhTruncStructure: shared by C07 and by the after-truncation harnesses of C03 / C09 (smaller n).
+func vhTruncStructure(pfx string, n int) {
 	verifrt.PermuteMaps(2)
-	n := vhC07StructN()
 	l := vhConcreteShape(n)
 	d := 1 + verifrt.Choose("depth", n)
 	l.vhSetDepth(d)
@@ -117,8 +119,8 @@ func VH_C07_structure() {
 		}
 	}
 	if err != nil {
-		verifrt.Assert(len(moved) == 0, "C07/structure/failed-truncate-moves-nothing")
-		verifrt.Reach("C07/structure/err")
+		verifrt.Assert(len(moved) == 0, pfx+"/failed-truncate-moves-nothing")
+		verifrt.Reach(pfx+"/err")
 		return
 	}
 	cut := -1
@@ -136,11 +138,11 @@ func VH_C07_structure() {
 			}
 		}
 	}
-	verifrt.Assert(len(moved) == 0 || cut >= 0, "C07/structure/moved-set-is-the-ancestry-of-a-live-vertex")
+	verifrt.Assert(len(moved) == 0 || cut >= 0, pfx+"/moved-set-is-the-ancestry-of-a-live-vertex")
 	for _, m := range moved {
 		v := l.recs[m].v
 		got, e := l.ab.readVertex(v.Hash[:])
-		verifrt.Assert(e == nil, "C07/structure/moved-vertex-readable")
+		verifrt.Assert(e == nil, pfx+"/moved-vertex-readable")
 		if e == nil {
 			same := got.Hash == v.Hash && got.LeftParentHash == v.LeftParentHash && got.RightParentHash == v.RightParentHash &&
 				got.Weight == v.Weight && got.SignerPublicAddress == v.SignerPublicAddress &&
@@ -148,20 +150,20 @@ func VH_C07_structure() {
 				got.Transaction.ReceiverAddress == v.Transaction.ReceiverAddress && got.Transaction.Spice == v.Transaction.Spice &&
 				got.CreatedAt.Equal(v.CreatedAt) && got.Transaction.CreatedAt.Equal(v.Transaction.CreatedAt) &&
 				string(got.Signature) == string(v.Signature) && string(got.Transaction.IssuerSignature) == string(v.Transaction.IssuerSignature)
-			verifrt.Assert(same, "C07/structure/moved-vertex-identical")
+			verifrt.Assert(same, pfx+"/moved-vertex-identical")
 		}
 		trx, e2 := l.ab.ReadTransactionByHash(context.Background(), v.Transaction.Hash)
-		verifrt.Assert(e2 == nil && trx.Hash == v.Transaction.Hash && trx.Spice == v.Transaction.Spice, "C07/structure/moved-transaction-readable")
+		verifrt.Assert(e2 == nil && trx.Hash == v.Transaction.Hash && trx.Spice == v.Transaction.Spice, pfx+"/moved-transaction-readable")
 		ok, e3 := l.ab.checkTrxInVertexExists(v.Transaction.Hash[:])
-		verifrt.Assert(e3 == nil && ok, "C07/structure/moved-transaction-still-indexed")
+		verifrt.Assert(e3 == nil && ok, pfx+"/moved-transaction-still-indexed")
 	}
 	for _, i := range live {
 		in, e := l.ab.checkVertexExistInStorage(l.recs[i].v.Hash[:])
-		verifrt.Assert(e == nil && !in, "C07/structure/live-vertex-not-checkpointed")
+		verifrt.Assert(e == nil && !in, pfx+"/live-vertex-not-checkpointed")
 	}
 	l.vhCheck("C03", "after-truncate")
 	l.vhCheck("C09", "after-truncate")
-	verifrt.Reach("C07/structure/ok")
+	verifrt.Reach(pfx+"/ok")
 }
 
 var vhPatterns = [][2]string{{"A", "B"}, {"B", "A"}, {"A", "A"}, {"B", "C"}}
@@ -169,9 +171,11 @@ var vhPatterns = [][2]string{{"A", "B"}, {"B", "A"}, {"A", "A"}, {"B", "C"}}
 // vhFundsLedger: genesis -> A, then a chain (or, with diamond, vertex 3 taking 1 and 2 as parents and
 // 2 hanging off genesis) whose vertices 1 and 2 use enumerated party patterns (incl. a self-transfer)
 // and symbolic amounts; vertex 3 (the tip) is a symbolic spice transfer by A or B.
+var vhFundsLight bool // chain shape only (the after-truncation harnesses of other properties)
+
 func vhFundsLedger() *vhLedger {
 	l := vhGenesisLedger("A", vhAmt("supply"))
-	diamond := verifrt.Choose("diamond", 2) == 1
+	diamond := !vhFundsLight && verifrt.Choose("diamond", 2) == 1
 	for i := 1; i <= 3; i++ {
 		p := vhPatterns[verifrt.Choose("pattern"+verifrt.Itoa(i), len(vhPatterns))]
 		v := vhTransfer(i, p[0], p[1], vhAmt("amt"+verifrt.Itoa(i)), nil, vhPeerAddr, uint64(50+i))
@@ -190,8 +194,12 @@ func vhFundsLedger() *vhLedger {
 
 // VH_C07_funds: checkpoint = previous checkpoint + net flow of exactly the moved set; balances and
 // the validation verdict of the tip are the same before and after.
-func VH_C07_funds() {
+func VH_C07_funds() { vhTruncFunds("C07/funds", false) }
+
+// vhTruncFunds: shared by C07 and by the after-truncation harnesses of C01 / C02 / C06 (light: chains only).
+func vhTruncFunds(pfx string, light bool) {
 	verifrt.PermuteMaps(2)
+	vhFundsLight = light
 	l := vhFundsLedger()
 	cp := l.vhCheckpoint()
 	d := 1 + verifrt.Choose("depth", 2)
@@ -211,7 +219,7 @@ func VH_C07_funds() {
 	vBefore := l.ab.validateLeaf(context.Background(), l.recs[t].v)
 	l.vhSetDepth(d)
 	if err := l.ab.truncate(context.Background()); err != nil {
-		verifrt.Assert(false, "C07/funds/truncate-succeeds")
+		verifrt.Assert(false, pfx+"/truncate-succeeds")
 		return
 	}
 	live := l.vhLive()
@@ -229,7 +237,7 @@ func VH_C07_funds() {
 		gotZ = vhZ(got)
 	}
 	if verifrt.ZGe(want, vhZero()) {
-		verifrt.Assert(verifrt.ZEq(gotZ, want), "C07/funds/checkpoint-is-previous-plus-net-flow-of-moved-set")
+		verifrt.Assert(verifrt.ZEq(gotZ, want), pfx+"/checkpoint-is-previous-plus-net-flow-of-moved-set")
 	}
 	bal, berr := l.ab.CalculateBalance(context.Background(), q)
 	if verifrt.Native() {
@@ -239,13 +247,13 @@ func VH_C07_funds() {
 		}
 	}
 	if berr == nil {
-		verifrt.Assert(verifrt.ZEq(vhZ(bal.Spice), verifrt.ZSub(tot, out)), "C07/funds/balance-preserved")
+		verifrt.Assert(verifrt.ZEq(vhZ(bal.Spice), verifrt.ZSub(tot, out)), pfx+"/balance-preserved")
 	} else {
-		verifrt.Assert(verifrt.ZLt(tot, out), "C07/funds/balance-error-only-if-negative-before")
+		verifrt.Assert(verifrt.ZLt(tot, out), pfx+"/balance-error-only-if-negative-before")
 	}
 	vAfter := l.ab.validateLeaf(context.Background(), l.recs[t].v)
-	verifrt.Assert((vBefore == nil) == (vAfter == nil), "C07/funds/same-validation-verdict")
-	verifrt.Reach("C07/funds/ok")
+	verifrt.Assert((vBefore == nil) == (vAfter == nil), pfx+"/same-validation-verdict")
+	verifrt.Reach(pfx+"/ok")
 }
 
 // VH_C07_resubmit: after a truncation, moved vertices and transactions are still refused.
